@@ -106,18 +106,27 @@ func fullNameOf(d protoreflect.Descriptor) protoreflect.FullName {
 
 // checkByName: ByName(k) is the first element named k (or nil), for every element name and probes.
 func checkByName[D protoreflect.Descriptor](w *walker, owner protoreflect.Descriptor, what string, n int, get func(int) D, byName func(protoreflect.Name) D) error {
+	names := make([]protoreflect.Name, n)
 	probes := []protoreflect.Name{"", "x", "no_such_name"}
+	seen := map[protoreflect.Name]bool{}
 	for i := 0; i < n; i++ {
 		nm := get(i).Name()
-		probes = append(probes, nm, nm+"x", protoreflect.Name(strings.ToLower(string(nm))), protoreflect.Name(strings.ToUpper(string(nm))))
+		names[i] = nm
+		cand := []protoreflect.Name{nm, nm + "x", protoreflect.Name(strings.ToLower(string(nm))), protoreflect.Name(strings.ToUpper(string(nm)))}
 		if len(nm) > 1 {
-			probes = append(probes, nm[:len(nm)-1])
+			cand = append(cand, nm[:len(nm)-1])
+		}
+		for _, p := range cand {
+			if !seen[p] {
+				seen[p] = true
+				probes = append(probes, p)
+			}
 		}
 	}
 	for _, k := range probes {
 		var want D
-		for j := 0; j < n; j++ {
-			if get(j).Name() == k {
+		for j := 0; j < n; j++ { // the linear scan is the reference
+			if names[j] == k {
 				want = get(j)
 				break
 			}
@@ -313,8 +322,21 @@ func (w *walker) checkNames(owner protoreflect.Descriptor, names protoreflect.Na
 // ---- messages -------------------------------------------------------------------------------------
 
 func inFieldRanges(rs protoreflect.FieldRanges, n protoreflect.FieldNumber) bool {
-	for i := 0; i < rs.Len(); i++ {
-		if r := rs.Get(i); r[0] <= n && n < r[1] { // message ranges are end-exclusive
+	return inListed(listed(rs), n)
+}
+
+// listed copies the indexed view of a range set.
+func listed(rs protoreflect.FieldRanges) [][2]protoreflect.FieldNumber {
+	out := make([][2]protoreflect.FieldNumber, rs.Len())
+	for i := range out {
+		out[i] = rs.Get(i)
+	}
+	return out
+}
+
+func inListed(rs [][2]protoreflect.FieldNumber, n protoreflect.FieldNumber) bool {
+	for _, r := range rs {
+		if r[0] <= n && n < r[1] { // message ranges are end-exclusive
 			return true
 		}
 	}
@@ -350,8 +372,10 @@ func (w *walker) checkFieldKeys(owner protoreflect.Descriptor, what string, fs p
 	n := fs.Len()
 	// numbers
 	nums := []int64{0, 1, -1, 1<<29 - 1, 1 << 29, math.MaxInt32, math.MinInt32}
+	numbers := make([]protoreflect.FieldNumber, n)
 	for i := 0; i < n; i++ {
-		x := int64(fs.Get(i).Number())
+		numbers[i] = fs.Get(i).Number()
+		x := int64(numbers[i])
 		nums = append(nums, x, x-1, x+1)
 	}
 	for _, x := range w.extra {
@@ -363,8 +387,8 @@ func (w *walker) checkFieldKeys(owner protoreflect.Descriptor, what string, fs p
 		}
 		num := protoreflect.FieldNumber(x)
 		var want protoreflect.FieldDescriptor
-		for j := 0; j < n; j++ {
-			if fs.Get(j).Number() == num {
+		for j := 0; j < n; j++ { // the linear scan is the reference
+			if numbers[j] == num {
 				want = fs.Get(j)
 				break
 			}
@@ -375,39 +399,51 @@ func (w *walker) checkFieldKeys(owner protoreflect.Descriptor, what string, fs p
 		}
 	}
 	// string keys
+	groupLike := make([]bool, n)
+	for i := 0; i < n; i++ {
+		groupLike[i] = isGroupLike(fs.Get(i))
+	}
 	for _, kv := range []keyed{
 		{"ByJSONName", protoreflect.FieldDescriptor.JSONName, fs.ByJSONName},
 		{"ByTextName", protoreflect.FieldDescriptor.TextName, fs.ByTextName},
 	} {
+		keys, lower := make([]string, n), make([]string, n)
 		probes := []string{"", "x", "no_such_name"}
+		seen := map[string]bool{}
+		firstWith := map[string]int{}
 		for i := 0; i < n; i++ {
 			f := fs.Get(i)
-			probes = append(probes, kv.key(f), strings.ToLower(kv.key(f)), string(f.Name()), f.JSONName(), f.TextName(), kv.key(f)+"x")
-			for j := 0; j < i; j++ {
-				if kv.key(fs.Get(j)) == kv.key(f) {
-					if kv.what == "ByJSONName" {
-						w.dupJSON++
-						if isOneof {
-							w.oneofDupKey++
-						}
-					}
-					break
+			keys[i] = kv.key(f)
+			lower[i] = strings.ToLower(keys[i])
+			for _, p := range []string{keys[i], lower[i], string(f.Name()), f.JSONName(), f.TextName(), keys[i] + "x"} {
+				if !seen[p] {
+					seen[p] = true
+					probes = append(probes, p)
 				}
+			}
+			if _, dup := firstWith[keys[i]]; dup {
+				if kv.what == "ByJSONName" {
+					w.dupJSON++
+					if isOneof {
+						w.oneofDupKey++
+					}
+				}
+			} else {
+				firstWith[keys[i]] = i
 			}
 		}
 		for _, k := range probes {
 			var strict, withAlias, last protoreflect.FieldDescriptor // first exact match; first match counting lower-cased group-like aliases; last exact match
-			for j := 0; j < n; j++ {
-				f := fs.Get(j)
-				exact := kv.key(f) == k
+			for j := 0; j < n; j++ { // the linear scan is the reference
+				exact := keys[j] == k
 				if exact {
 					if strict == nil {
-						strict = f
+						strict = fs.Get(j)
 					}
-					last = f
+					last = fs.Get(j)
 				}
-				if withAlias == nil && (exact || (isGroupLike(f) && strings.ToLower(kv.key(f)) == k)) {
-					withAlias = f
+				if withAlias == nil && (exact || (groupLike[j] && lower[j] == k)) {
+					withAlias = fs.Get(j)
 				}
 			}
 			w.checks++
@@ -549,6 +585,7 @@ func (w *walker) checkMessage(md protoreflect.MessageDescriptor) error {
 
 	// Range sets and the number index at every boundary.
 	rr, xr := md.ReservedRanges(), md.ExtensionRanges()
+	rrList, xrList := listed(rr), listed(xr)
 	if rr.Len()+xr.Len() > w.maxRanges {
 		w.maxRanges = rr.Len() + xr.Len()
 	}
@@ -571,10 +608,10 @@ func (w *walker) checkMessage(md protoreflect.MessageDescriptor) error {
 		}
 		n := protoreflect.FieldNumber(x)
 		w.checks += 3
-		if got, want := rr.Has(n), inFieldRanges(rr, n); got != want {
+		if got, want := rr.Has(n), inListed(rrList, n); got != want {
 			return w.errf(md, "ReservedRanges().Has(%d) = %v, membership in the %d listed ranges = %v", n, got, rr.Len(), want)
 		}
-		if got, want := xr.Has(n), inFieldRanges(xr, n); got != want {
+		if got, want := xr.Has(n), inListed(xrList, n); got != want {
 			return w.errf(md, "ExtensionRanges().Has(%d) = %v, membership in the %d listed ranges = %v", n, got, xr.Len(), want)
 		}
 		isReq := false
